@@ -10,10 +10,9 @@ from harness.impl import fordrun as F
 
 IMPORTS = "From Ford Require Import Base.Str Sem.Access Sem.Display Corr.C05."
 CASE_T = "case"
-THEOREMS = ["C05_statement_refuted", "C05_prune_exact", "C05_visible_sound", "C05_pages", "C05_display_inherit",
-            "C05_display_inherit_file_refuted", "C05_refuted_enum", "C05_refuted_internals_enum",
-            "C05_refuted_common", "C05_refuted_namelist", "C05_refuted_namelist_page", "C05_refuted_final",
-            "C05_refuted_doc_place"]
+THEOREMS = ["C05_prune_exact", "C05_visible_sound", "C05_pages", "C05_display_inherit",
+            "C05_constructor_permission_matters", "C05_fixed_enum", "C05_fixed_internals_enum", "C05_fixed_common",
+            "C05_fixed_namelist", "C05_fixed_final", "C05_fixed_file_display", "C05_fixed_doc_place"]
 REGIONS = {}      # no recorded finding is open; bit 64 = the tree has a shape FORD cannot produce
 FORD_LISTS = ["modules", "submodules", "programs", "blockdata", "functions", "subroutines", "types", "interfaces",
               "absinterfaces", "variables", "enums", "common", "namelists", "modprocedures", "modfunctions",
@@ -181,23 +180,16 @@ def check_project(chk, files, texts, cfgs, what, stats):
         reg = code >> 2
         payload = {"what": what, "cfg": cfg, "file": f["name"], "files": texts, "tree": f, "code": code,
                    "meaning": "bit0 model!=impl, bit1 impl differs from the Spec, bits>=2 region mask " + str(REGIONS)}
-        if (code & 1 or (code & 2 and (reg == 0 or reg & 64))) and stats["diagnosed"] < 3:
+        if stats["diagnosed"] < 3:
             stats["diagnosed"] += 1
             payload["diagnosis"] = chk.coq_eval(IMPORTS, f"diagnose {terms[idx]}")
         if code & 2:
             chk.disagreements += 1
-            if reg == 0 or reg & 64:
-                stats["spec-violation-outside-regions"] += 1
-                chk.violation("failing-input", payload, True)
-            else:
-                for bit, key in REGIONS.items():
-                    if reg & bit:
-                        stats["region:" + key] += 1
-                        if not any(x["key"] == key and x.get("status", "open") == "open" for x in chk.findings):
-                            chk.violation("failing-input", payload, True)
+            stats["spec-violation"] += 1
+            chk.violation("failing-input", payload, True)
         if code & 1:
             stats["model-mismatch"] += 1
-            if not (code & 2 and reg == 0):
+            if not code & 2:
                 chk.violation("broken-correspondence", payload, False)
 
 
@@ -385,11 +377,14 @@ FINDINGS = {
 
 
 def replay_findings(chk):
+    """no finding is open; the witnesses of the repaired defects must not fail again"""
     for key, still in FINDINGS.items():
         try:
-            chk.known(key, bool(still()))
-        except Exception:  # noqa — the witness no longer parses: not the recorded behaviour
-            chk.known(key, False)
+            back = bool(still())
+        except Exception as e:  # noqa
+            back = False
+        if back:
+            chk.violation("failing-input", {"what": "a repaired defect is back: " + key}, True)
 
 
 # ---------------------------------------------------------------------------------------------- protocol
@@ -467,6 +462,9 @@ def replay(chk, rep):
             print("FORD raised:", r[1])
             return 1
         impl, perms, pages = r
+        for n, _ in D.walk(f):
+            fp = perms.get(n["id"])
+            n["fperm"] = fp if fp in D.CP and n["kind"] not in ("arg", "final", "file", "commonvar") else None
         chk.build(["theories/Corr/C05.vo"])
         term = coq_case(files, cfg, impl, pages)[0]
         res = chk.coq_judge(IMPORTS, CASE_T, "judge", [term])
@@ -475,7 +473,7 @@ def replay(chk, rep):
         print("(model/impl differences, model pages, impl pages, spec differences with region):")
         print(chk.coq_eval(IMPORTS, f"diagnose {term}"))
         print("judge code:", res)
-        return 1 if res and any(c & 1 or (c & 2 and (c >> 2) in (0,) ) for c in res.values()) else 0
+        return 1 if res else 0
     if "project" in rep and "cfg" in rep:
         chk.build(["theories/Corr/C05.vo"])
         stats = collections.Counter()
@@ -497,7 +495,8 @@ def finish(chk):
         trusted_base=["Coq 8.16.1 kernel (vm_compute for cases and witnesses)",
                       "harness/gen/display.py (generator, renderer tree -> Fortran text), harness/props/c05.py",
                       "hand-written model and Spec in Sem/Display.v",
-                      "entity.permission as FORD computes it (property C04) is an input of the tree",
+                      "entity.permission as FORD computes it is read from the implementation (a_perm); the accessibility "
+                      "Fortran defines (a_acc) is fixed by the generator (default statement first, explicit keywords)",
                       "Jinja templates, tipue search: not modelled — searched end to end (incl_src: false)"],
         rule="distinct = distinct (text, configuration) of the option product, of a random project, or of a full run",
         checker_cmd="make theories/Props/C05.vo && coqc theories/Props/C05.v (Print Assumptions)",
